@@ -10,6 +10,8 @@ import sys
 import tempfile
 
 REPO = "/repo"
+ROOT = os.path.dirname(os.path.dirname(os.path.abspath(__file__)))
+VF = os.path.join(ROOT, "vf")
 PYTEST = ["/venv/bin/python", "-m", "pytest", "-q", "-p", "no:cacheprovider", "-x"]
 
 
@@ -61,7 +63,7 @@ def detect(seed, ids):
     res = {}
     try:
         for pid in ids:
-            rc, out = sh(["/verif/vf", "check", pid, "--tier", os.environ.get("SEED_TIER", "quick")], cwd="/verif", timeout=7200)
+            rc, out = sh([VF, "check", pid, "--tier", os.environ.get("SEED_TIER", "quick")], cwd=ROOT, timeout=7200)
             lines = [x for x in out.splitlines() if x.startswith("VIOLATION") or x.startswith("HARNESS-ERROR") or x.startswith(pid + " ")]
             res[pid] = {"rc": rc, "violations": sum(1 for x in lines if x.startswith("VIOLATION")), "first": [x for x in out.splitlines() if x.startswith("  ")][:2],
                         "summary": lines[-1][:300] if lines else out[-300:]}
@@ -95,11 +97,11 @@ def detectw(seed, ids, revert=None):
             return {"error": "patch does not apply: " + out[-300:]}
         env = dict(os.environ, PYTHONPATH=wt, VERIF_EVIDENCE_DIR=os.path.join(scratch, "ev"), VERIF_REPLAYS_DIR=os.path.join(scratch, "rp"))
         os.makedirs(env["VERIF_EVIDENCE_DIR"]); os.makedirs(env["VERIF_REPLAYS_DIR"])
-        p = subprocess.run(["/verif/.venv/bin/python", "-c", "import func_adl; print(func_adl.__file__)"], env=dict(env, PYTHONPATH="/verif:" + wt), capture_output=True, text=True)
+        p = subprocess.run(["/verif/.venv/bin/python", "-c", "import func_adl; print(func_adl.__file__)"], env=dict(env, PYTHONPATH=ROOT + ":" + wt), capture_output=True, text=True)
         if not p.stdout.strip().startswith(wt):
             return {"error": "func_adl not imported from the scratch worktree: " + p.stdout + p.stderr[-200:]}
         for pid in ids:
-            p = subprocess.run(["/verif/vf", "check", pid, "--tier", os.environ.get("SEED_TIER", "quick")], cwd="/verif", capture_output=True, text=True, timeout=7200, env=env)
+            p = subprocess.run([VF, "check", pid, "--tier", os.environ.get("SEED_TIER", "quick")], cwd=ROOT, capture_output=True, text=True, timeout=7200, env=env)
             rc, out = p.returncode, p.stdout + p.stderr
             lines = [x for x in out.splitlines() if x.startswith("VIOLATION") or x.startswith("HARNESS-ERROR") or x.startswith(pid + " ")]
             res[pid] = {"rc": rc, "violations": sum(1 for x in lines if x.startswith("VIOLATION")), "first": [x for x in out.splitlines() if x.startswith("  ")][:2],
